@@ -166,3 +166,11 @@ package graph
 //@   loop 2
 //@     invariant droppedEdges >= 0
 //@     invariant edgesok(g)
+
+// ---- C04 (strengthened after seeded change seen-node-reset-per-location): within one sample the set of nodes
+// already credited only grows, so a node reached through two locations is credited once ----
+//@ func newGraph funcvalues=pure nosafety
+//@   loop 2
+//@     invariant grows: forall x *Node :: atloop(2, has(seenNode, x)) ==> has(seenNode, x)
+//@   loop 3
+//@     invariant grows_inner: forall x *Node :: atloop(2, has(seenNode, x)) ==> has(seenNode, x)
